@@ -184,7 +184,8 @@ R_REJECT = "reader: JSON without the nutree header raises RuntimeError"
 R_REJECT_ANY = "reader: JSON with a malformed 'meta' member is rejected"
 TIMEOUT = "save()/load() terminates"
 
-USER_META = {"foo": "bar", "n": [1, {"k": None}], "ü": "€"}
+USER_META = {"foo": "bar", "n": [1, {"k": None}], "ü": "€", "$schema": "urn:x", "$comment": None}
+RESERVED_META = ("$generator", "$format_version", "$key_map", "$value_map")
 
 
 # ---------------------------------------------------------------- (a) writer
@@ -259,7 +260,7 @@ def check_writer(fam: Family, tree, labels, opts) -> list:
         diffs.append((W_VALMAP, f"$value_map {h_vm!r} present although no value map is in use"))
         vm_ok = False
     # user meta
-    user = {k: v for k, v in head.items() if not k.startswith("$")}
+    user = {k: v for k, v in head.items() if k not in RESERVED_META}
     if user != (USER_META if meta else {}):
         diffs.append((W_META, f"non-$ header keys {clip(user, 150)} != meta {clip(meta, 150)}"))
     # node list: decode with the maps the header declares
@@ -556,7 +557,7 @@ def check_example(idx: int) -> list:
     got = describe(loaded)
     for clause, t in c05.compare(exp, got):
         diffs.append((R_EXAMPLE, f"example '{name}': {clause}: {t}"))
-    if {k: v for k, v in fm.items() if not k.startswith("$")} != user or "$generator" not in fm:
+    if {k: v for k, v in fm.items() if k not in RESERVED_META} != user or "$generator" not in fm:
         diffs.append((R_EXAMPLE, f"example '{name}': file_meta {fm!r}"))
     return diffs
 
